@@ -232,13 +232,31 @@ def fmt_date(layout, y, m, d):
     return layout.replace("2006", "%04d" % y).replace("01", "%02d" % m, 1).replace("02", "%02d" % d, 1) if False else \
         _fmt(layout, y, m, d)
 
-def _fmt(layout, y, m, d):
-    out = ""; i = 0
+MONTHS = ["January", "February", "March", "April", "May", "June", "July", "August", "September", "October", "November", "December"]
+
+def layout_elements(layout):
+    """the layout cut into Go's reference elements (the eight the checks use) and literal characters, in nextStdChunk's order of recognition"""
+    out = []; i = 0
     while i < len(layout):
-        if layout.startswith("2006", i): out += "%04d" % y; i += 4
-        elif layout.startswith("01", i): out += "%02d" % m; i += 2
-        elif layout.startswith("02", i): out += "%02d" % d; i += 2
-        else: out += layout[i]; i += 1
+        for t in ("January", "Jan", "2006", "01", "02", "_2", "2", "1"):
+            if layout.startswith(t, i) and not (t == "_2" and layout.startswith("_2006", i)) and not (t == "1" and layout.startswith("15", i)):
+                out.append(("el", t)); i += len(t); break
+        else:
+            out.append(("lit", layout[i])); i += 1
+    return out
+
+def _fmt(layout, y, m, d):
+    out = ""
+    for kind, t in layout_elements(layout):
+        if kind == "lit": out += t
+        elif t == "2006": out += "%04d" % y
+        elif t == "01": out += "%02d" % m
+        elif t == "02": out += "%02d" % d
+        elif t == "1": out += "%d" % m
+        elif t == "2": out += "%d" % d
+        elif t == "_2": out += "%2d" % d
+        elif t == "Jan": out += MONTHS[m - 1][:3]
+        elif t == "January": out += MONTHS[m - 1]
     return out
 
 LAYOUTS = ["2006/01/02", "2006-01-02", "02.01.2006", "01/02/2006", "2006.01.02", "02-01-2006"]
